@@ -44,6 +44,8 @@ def machine_devs():
     """The machine transcribes the CURRENT tree: a named deviation is switched on while its finding is open
     (each finding of known_findings names its deviation); a finding marked fixed switches it off."""
     fixed = {f.get("deviation") for f in C.load_findings() if f["property"] == PID and f["status"] == "fixed"}
+    # trying a proposed repair on a scratch copy: VERIF_C16_DEVS_OFF=dev1,dev2 switches further deviations off
+    fixed |= set(filter(None, os.environ.get("VERIF_C16_DEVS_OFF", "").split(",")))
     return [d for d in ALL_DEVS if d not in fixed]
 
 
